@@ -7,6 +7,7 @@ import (
 	bridgetypes "github.com/tellor-io/layer/x/bridge/types"
 	minttypes "github.com/tellor-io/layer/x/mint/types"
 	oracletypes "github.com/tellor-io/layer/x/oracle/types"
+	registrytypes "github.com/tellor-io/layer/x/registry/types"
 
 	sdk "github.com/cosmos/cosmos-sdk/types"
 	authtypes "github.com/cosmos/cosmos-sdk/x/auth/types"
@@ -91,6 +92,22 @@ func (g *Gen) depositSteps(id uint64, amountTRB, tipTRB int64, wait int) []func(
 }
 
 func init() {
+	// registers weighted-mode specs early so that mode-aggregated rounds with few distinct values exist
+	fragments["modeSpec"] = func(g *Gen) []func() [][]byte {
+		reg := func(name string, window uint64) func() [][]byte {
+			return func() [][]byte {
+				s := g.free(g.user)
+				if s == nil {
+					return nil
+				}
+				qd := QueryData(name, abiPack([]string{"uint256"}, big.NewInt(1)))
+				g.customQ = append(g.customQ, qd)
+				return [][]byte{g.tx(s, &registrytypes.MsgRegisterSpec{Registrar: s.Bech(), QueryType: name, Spec: registrytypes.DataSpec{ResponseValueType: "uint256", AggregationMethod: "weighted-mode",
+					AbiComponents: []*registrytypes.ABIComponent{{Name: "x", FieldType: "uint256"}}, ReportBlockWindow: window}})}
+			}
+		}
+		return []func() [][]byte{func() [][]byte { return nil }, reg("ModeA", 3), reg("ModeB", 5)}
+	}
 	fragments["deposit1"] = func(g *Gen) []func() [][]byte { return g.depositSteps(1, 100, 0, 8) }
 	fragments["deposit2"] = func(g *Gen) []func() [][]byte { return g.depositSteps(2, 250, 3, 1) }
 	fragments["deposit3"] = func(g *Gen) []func() [][]byte { return g.depositSteps(3, 7, 7, 1) }
